@@ -23,6 +23,7 @@ func stdVariants(profile string) []variant {
 		{Name: profile + "-confirm", Profile: profile, Policy: "rtc", Steps: 90, Faults: confirmFaults, FaultRate: 0.03, Weight: 3},
 		{Name: profile + "-churn", Profile: profile, Policy: "rtc", Steps: 90, Faults: with(confirmFaults, "node_loss", "app_remove_live", "req_dup", "clock_jump", "predicate_flap"), FaultRate: 0.03, Weight: 3},
 		{Name: profile + "-deadline", Profile: profile, Policy: "rtc", Steps: 90, Faults: with(confirmFaults, "deadline_race", "predicate_flap", "predicate_side_effect"), FaultRate: 0.05, Weight: 3},
+		{Name: profile + "-deadline-rnd", Profile: profile, Policy: "rnd", PreemptP: 0.1, Steps: 70, Faults: with(confirmFaults, "deadline_race"), FaultRate: 0.05, Weight: 2},
 		{Name: profile + "-interleaved", Profile: profile, Policy: "rnd", PreemptP: 0.05, Steps: 70, Faults: with(confirmFaults, "xchan_reorder", "node_loss", "app_remove_live"), FaultRate: 0.03, Weight: 2},
 	}
 }
@@ -86,7 +87,7 @@ var plans = map[string]plan{
 	"C08": {Variants: preemptVariants(), QuickRuns: 400, QuickSecs: 70, ThoroughRuns: 40000, ThoroughSecs: 1500},
 	"C17": {Variants: append(append(stdVariants("place")[:2:2], reloadVariants("place")...), stdVariants("quota")[0], stdVariants("maxapps")[0]), QuickRuns: 400, QuickSecs: 70, ThoroughRuns: 40000, ThoroughSecs: 1500},
 	"C19": {Variants: append(append(stdVariants("sort")[:3:3], stdVariants("preempt")[0]), stdVariants("quota")[0]), QuickRuns: 400, QuickSecs: 70, ThoroughRuns: 40000, ThoroughSecs: 1500},
-	"C09": {Variants: append(stdVariants("base"), stdVariants("gang")[1], stdVariants("gang")[2], stdVariants("gang")[4], preemptVariants()[0], preemptVariants()[1]), QuickRuns: 400, QuickSecs: 70, ThoroughRuns: 40000, ThoroughSecs: 1500},
+	"C09": {Variants: append(stdVariants("base"), stdVariants("gang")[1], stdVariants("gang")[2], stdVariants("gang")[5], preemptVariants()[0], preemptVariants()[1]), QuickRuns: 400, QuickSecs: 70, ThoroughRuns: 40000, ThoroughSecs: 1500},
 	"C10": {Variants: append(stdVariants("base"), stdVariants("gang")...), QuickRuns: 400, QuickSecs: 70, ThoroughRuns: 40000, ThoroughSecs: 1500},
 	"C11": {Variants: append(stdVariants("maxapps"), reloadVariants("maxapps")[0], reloadVariants("maxapps")[1]), QuickRuns: 400, QuickSecs: 70, ThoroughRuns: 40000, ThoroughSecs: 1500},
 }
